@@ -443,7 +443,41 @@ def pattern_facts(pattern, flags=0):
     layout = flat(list(parsed))
     if sum(1 for x in layout if x[0] == "group") == 0:
         layout = []
-    out = {nm: {"at_start": at_start.get(nm, False), "width": width.get(nm, (0, None)), "always": nm in always, "before": sorted(b for a, b in before if a == nm), "first": first.get(nm), "uniform": uniform.get(nm)} for nm in set(names.values())}
+
+    # trail: (lo, hi|None) = width of what the pattern still has to match between the end of a participating
+    # group (its last capture) and the end of the match.  Sound for every path through the pattern: the
+    # remainder of each enclosing sequence follows; a loop body may be followed by further iterations (hi
+    # unbounded, lo unchanged).  Look-arounds are zero-width.
+    trail = {}
+
+    def w_of(items):
+        try:
+            lo_, hi_ = sp.SubPattern(parsed.state, list(items)).getwidth()
+        except Exception:
+            return 0, None
+        return lo_, (None if hi_ >= sc.MAXREPEAT or hi_ >= 2**31 else hi_)
+
+    def addw(a, b):
+        return a[0] + b[0], (None if a[1] is None or b[1] is None else a[1] + b[1])
+
+    def trail_walk(seq, after):
+        items = list(seq)
+        for i, (op, av) in enumerate(items):
+            aft = addw(w_of(items[i + 1 :]), after)
+            if op == sc.SUBPATTERN:
+                if av[0] in names:
+                    nm = names[av[0]]
+                    old_ = trail.get(nm)
+                    trail[nm] = aft if old_ is None else (min(old_[0], aft[0]), None if (old_[1] is None or aft[1] is None) else max(old_[1], aft[1]))
+                trail_walk(list(av[3]), aft)
+            elif op == sc.BRANCH:
+                for b in av[1]:
+                    trail_walk(list(b), aft)
+            elif op in (sc.MAX_REPEAT, sc.MIN_REPEAT):
+                trail_walk(list(av[2]), aft if av[1] <= 1 else (aft[0], None))
+
+    trail_walk(list(parsed), (0, 0))
+    out = {nm: {"at_start": at_start.get(nm, False), "width": width.get(nm, (0, None)), "always": nm in always, "before": sorted(b for a, b in before if a == nm), "first": first.get(nm), "uniform": uniform.get(nm), "trail": trail.get(nm, (0, None))} for nm in set(names.values())}
     out["__layout__"] = layout
     _FACTS[key] = out
     return out
@@ -538,6 +572,11 @@ def apply_facts(eng, m, pattern, flags=0):
             eng.add(ge - gs >= lo)
             if hi is not None:
                 eng.add(ge - gs <= hi)
+            tlo, thi = facts[k].get("trail", (0, None))
+            if tlo > 0:
+                eng.add(m.e - ge >= tlo)
+            if thi is not None:
+                eng.add(m.e - ge <= thi)
             if facts[k].get("uniform"):
                 rs_, n_ = facts[k]["uniform"]
                 for d_ in range(n_):
